@@ -49,8 +49,11 @@ def specs():
                                                          Q_UNITS_THOROUGH if th else Q_UNITS, SIZES):
                 if qu not in ('mL', 'g', 'mmol') and (cu not in ('M', 'g/g', 'mol/mol', '%w/v') or size != 'small'):
                     continue
-                yield {'stock': stock, 'solvent': solvent, 'cu': cu, 'ratio': [ratio.numerator, ratio.denominator], 'qu': qu,
-                       'size': size}
+                for cap in ('inf', 'tight'):
+                    # 'tight': the stock (and the solvent container) sit in vessels with 2 % head-room; the new solution is a new
+                    # vessel, so what can be prepared does not depend on the size of the vessels the inputs came in
+                    yield {'stock': stock, 'solvent': solvent, 'cu': cu, 'ratio': [ratio.numerator, ratio.denominator], 'qu': qu,
+                           'size': size, 'cap': cap}
 
 
 _G = {}
@@ -61,6 +64,10 @@ def run_spec(sp):
     subs = e1.substances(pp, vidx)
     C = pp.Container
     source = C('stock', initial_contents=[(subs[n], q) for n, q in STOCKS[sp['stock']]])
+    tight = sp.get('cap') == 'tight'
+    if tight:
+        source = C('stock', f"{source.volume * 1.02!r} {pp.config.volume_storage_unit}",
+                   [(subs[n], q) for n, q in STOCKS[sp['stock']]])
     solute = subs[SOLUTE[sp['stock']]]
     own = OWN_SOLVENT[sp['stock']]
     other = 'dmso' if own == 'water' else 'water' if own != 'tea' else 'water'
@@ -71,6 +78,8 @@ def run_spec(sp):
             q = ('0.5 mmol' if not solute.is_liquid() else '0.2 mL') if q == '@small' else q
             cont.append((subs[n], q))
         solvent = C('solv', initial_contents=cont)
+        if tight:
+            solvent = C('solv', f"{solvent.volume * 1.02!r} {pp.config.volume_storage_unit}", cont)
         T_v = lambda u: ref.measure(pp, solvent.contents, u)               # noqa  (per fraction of the container)
         N_v = lambda u: ref.measure(pp, {solute: solvent.contents.get(solute, 0)}, u)   # noqa
     else:
@@ -118,7 +127,8 @@ def run_spec(sp):
             expect, why = 'accept', ''
     case = {'vidx': vidx, 'spec': sp}
     call = f"create_solution_from({sp['stock']}, {solute.name}, {cstr!r}, {sp['solvent']}, {qstr!r})"
-    feat = (f"stock={sp['stock']},solvent={'container' if is_c else 'substance'},num={num},den={den},qty={qb}")
+    feat = (f"stock={sp['stock']},solvent={'container' if is_c else 'substance'},num={num},den={den},qty={qb}"
+            + (',tight-vessels' if tight else ''))
     fps = (e1.exact_obj(source), e1.exact_obj(solvent))
     env.clear_caches(pp)
     try:
@@ -190,6 +200,17 @@ def run_spec(sp):
             return [V(f"create_solution_from | not-conserved | {feat}",
                       f"{call}: the inputs lost {out!r} of {s.name} but the new solution holds {inn!r}", case, out, inn)], \
                 (expect, 'returned')
+    # the residual vessels are the input vessels (name, capacity); no returned vessel is over-full
+    from .. import monitors
+    for before, after, what in ((source, rsrc, 'source'), (solvent if is_c else None, rsolv, 'solvent container')):
+        if before is not None and (after.name != before.name or after.max_volume != before.max_volume):
+            return [V(f"create_solution_from | identity-changed | {feat}", f"{call}: the residual {what} is {after.name!r} with capacity "
+                      f"{after.max_volume!r}, it was {before.name!r} with {before.max_volume!r}", case)], (expect, 'returned')
+    for o in (rsrc, rsolv, new):
+        bad = o is not None and monitors.sane_container(pp, o)
+        if bad:
+            return [V(f"create_solution_from | impossible-result | {feat}", f"{call}: returned {o.name!r} with {bad}", case)], \
+                (expect, 'returned')
     return [], (expect, 'returned')
 
 
@@ -197,7 +218,8 @@ def run(col):
     pp = env.load()
     col.rule = ("5 stocks (binary solid/liquid solute, dense solvent, ternary, enzyme bystander) x solvent {own, another liquid, "
                 "container of pure solvent, container holding some solute} x 16 concentration spellings x ratio to the stock "
-                "{0.1, 0.5, 1, 2} x 7 quantity units x size {a tenth of the stock, all of it, more}; the request is derived and "
+                "{0.1, 0.5, 1, 2} x 7 quantity units x size {a tenth of the stock, all of it, more} x input vessels {unlimited, 2 % "
+                "head-room}; the request is derived and "
                 "classified by an exact 2x2 rational solve, the result judged by definition (total, concentration, uniform "
                 "aliquots, conservation). Non-trivial = distinct (stock, solvent form, units, size, ratio, expectation, outcome)")
     col.assumptions += ["ratio 1 and requests that need exactly the whole stock are don't-care (boundary)"]
@@ -210,7 +232,7 @@ def run(col):
         classes = set()
         for sp, (vs, oc) in zip(sps, res):
             col.add(vs)
-            classes.add((sp['stock'], sp['solvent'], sp['cu'], ref.split_unit(sp['qu'])[1], sp['size'], tuple(sp['ratio']), oc))
+            classes.add((sp['stock'], sp['solvent'], sp['cu'], ref.split_unit(sp['qu'])[1], sp['size'], tuple(sp['ratio']), sp['cap'], oc))
         col.count('transitions', len(sps))
         col.count('traces', len(sps))
         col.count('evaluations', len(sps))
